@@ -15,7 +15,7 @@ pub fn api_hashfunc(data: &[u8]) -> (u32, u32, u32) {
 // ---------------------------------------------------------------------------------------------------------
 // C19 main harness: the (check_fn, regex) pair is read from the real table entry CHARACTER_DATA[IDX]
 macro_rules! h_regex_entry {
-    ($name:ident, $check_fn:path, $r:ident, $dom:ident, $n:literal, $unw:literal) => {
+    ($name:ident, $check_fn:path, $r:ident, $dom:ident, $n:literal, $unw:literal, $has_member:literal) => {
         #[cfg_attr(kani, kani::proof)]
         #[cfg_attr(kani, kani::unwind($unw))]
         pub fn $name() {
@@ -28,7 +28,8 @@ macro_rules! h_regex_entry {
             let want = $r(s);
             let got = check_fn(s);
             vk_cover!(!want && len > 0, "reference rejects some string");
-            vk_cover!(got, "validator accepts some string");
+            // (only demanded when the language has a member within the bound)
+            vk_cover!(got || !$has_member, "validator accepts some string");
             vk_check!(got == want, "validator and published regex disagree");
         }
     };
@@ -221,10 +222,55 @@ macro_rules! h_version_from_str_sound {
                 vk::assume(buf[i] < 0x80);
                 i += 1;
             }
-            let s = core::str::from_utf8(&buf[..len]).unwrap();
+            // SAFETY: all bytes are assumed ASCII above
+            let s = unsafe { core::str::from_utf8_unchecked(&buf[..len]) };
             if let Ok(x) = <AutosarVersion as core::str::FromStr>::from_str(s) {
                 vk_cover!(true, "some text is a version file name");
                 vk_check!(bytes_eq(x.filename().as_bytes(), s.as_bytes()), "from_str accepted a text that is not the version's file name");
+            }
+        }
+    };
+}
+
+// all k-byte-substitution neighbours (positions and values symbolic) of all 21 file names, optionally truncated/extended by one byte
+macro_rules! h_version_from_str_neigh {
+    ($name:ident, $k:literal, $unw:literal) => {
+        #[cfg_attr(kani, kani::proof)]
+        #[cfg_attr(kani, kani::unwind($unw))]
+        pub fn $name() {
+            let bit = vk::any_u8();
+            vk::assume(bit < 21);
+            let y = AutosarVersion::from_val(1u32 << bit).unwrap();
+            let base = y.filename().as_bytes();
+            let mut buf = [0u8; 18];
+            let mut i = 0;
+            while i < base.len() && i < 18 {
+                buf[i] = base[i];
+                i += 1;
+            }
+            buf[17] = vk::any_u8();
+            vk::assume(buf[17] < 0x80);
+            let mut k = 0;
+            while k < $k {
+                let p = vk::any_u8();
+                let b = vk::any_u8();
+                vk::assume(p < 17 && b < 0x80);
+                buf[p as usize] = b;
+                k += 1;
+            }
+            let len = vk::any_usize();
+            vk::assume(len >= 16 && len <= 18);
+            // SAFETY: all bytes are assumed ASCII above
+            let s = unsafe { core::str::from_utf8_unchecked(&buf[..len]) };
+            match <AutosarVersion as core::str::FromStr>::from_str(s) {
+                Ok(x) => {
+                    vk_cover!(x as u32 != y as u32, "an edited name of one version is the name of another version");
+                    vk_check!(bytes_eq(x.filename().as_bytes(), s.as_bytes()), "from_str accepted a text that is not the version's file name");
+                }
+                Err(_) => {
+                    vk_cover!(true, "some neighbour is rejected");
+                    vk_check!(!bytes_eq(y.filename().as_bytes(), s.as_bytes()), "from_str rejected the file name of a version");
+                }
             }
         }
     };
